@@ -23,8 +23,12 @@ class Rec:
 
     def __init__(self, mon, kind, base, fault):
         self.mon, self.kind, self.base, self.fault = mon, kind, base, fault
+        self.examined = False
+        if kind == "newton":
+            mon.solves.append(self)
 
     def __bool__(self):
+        self.examined = True
         v = bool(self.base) and not bool(self.fault)
         self.mon.decisions.append((self.mon.step, self.kind, v))
         return v
@@ -57,6 +61,7 @@ class Monitor:
         self.nf = 0
         self.step = 0
         self.decisions = []
+        self.solves = []
 
     def fault(self):
         self.nf += 1
@@ -215,6 +220,12 @@ def schedule(h, solver="BackwardEuler", system="contact", cont=False, only_rows=
         h.holds("intermediate failure repaired within the step", True)
     if out["nt"] is not None:
         h.holds("every stored field has one row per stored instant", bool(out["rows_ok"]))
+    # a nonlinear solve whose convergence flag the solver never looked at (e.g. a re-solve inside a fixed-point loop of which only the
+    # last is checked): the run is the same whether or not that solve converged, so its failure would be silent
+    ignored = [r for r in mon.solves if not r.examined]
+    if out["raised"] is None and not notices:
+        h.holds("the convergence flag of every nonlinear solve of a silently completed run was examined", not ignored,
+                info=f"{len(ignored)} of {len(mon.solves)} solves unexamined")
     if system == "contact" or solver != "Moreau":
         h.holds("exploration reached the solver loop", len(mon.decisions) > 0 or out["raised"] is not None)
 
